@@ -9,7 +9,8 @@
 #          <commit>-R      that fix of /repo reversed on today's files (git show <commit> | patch -R; read-only use of git)
 # Scratch directory: $RESVAL_DIR (default /root/scratch-resfacts/val); remove it afterwards.
 set -u
-VERIF=/verif
+VERIF=${VERIF:-/verif}
+SEEDED=${SEEDED:-$VERIF/seeded}
 REPO=/repo
 WORK=${RESVAL_DIR:-/root/scratch-resfacts/val}
 BIN=$WORK/resfacts
@@ -34,7 +35,7 @@ run_one() {
   rm -rf "$root"; mkdir -p "$root"
   case $m in
     baseline) ;;
-    C??-m?) patch=$VERIF/seeded/$m/patch.diff ;;
+    C??-m?) patch=$SEEDED/$m/patch.diff ;;
     R*)     patch=$VERIF/tools/resfacts/regressions/$m.diff ;;
     *-R)
       local c=${m%-R}
